@@ -2,6 +2,12 @@
 // series file, epoch trackers and delete guards, per-shard tsm1 engines and tsi1 indexes with their real
 // background goroutines) under the baton scheduler. Writers, predicate deleters and readers run
 // concurrently through the Store API; no harness lock stands in for the Store's own write/delete guard.
+//
+// C16: deletes carry predicate TREES (AND/OR over = / != on _measurement and three tag keys, one of which only
+// one tag set carries and one of which one tag set lacks), compiled from the protobuf form; besides the
+// end-to-end effect the compiled predicate is asked directly about every series key of the domain.
+// C42: "meta" operations run MeasurementNames / TagKeys / TagValues with generated conditions, shard subsets
+// and fine-grained authorizers whenever the calling client is alone, and again at every quiescent point.
 package store
 
 import (
@@ -18,12 +24,11 @@ import (
 
 	influxdb "github.com/influxdata/influxdb/v2"
 	"github.com/influxdata/influxdb/v2/models"
-	"github.com/influxdata/influxdb/v2/predicate"
+	"github.com/influxdata/influxdb/v2/storage/reads/datatypes"
 	"github.com/influxdata/influxdb/v2/tsdb"
 	_ "github.com/influxdata/influxdb/v2/tsdb/engine"
 	"github.com/influxdata/influxdb/v2/tsdb/engine/tsm1"
 	_ "github.com/influxdata/influxdb/v2/tsdb/index"
-	"github.com/influxdata/influxql"
 	"verif/dsim/hx"
 	"verif/dsim/model"
 	"verif/dsim/simrt"
@@ -37,46 +42,6 @@ const (
 
 func shardOfSlot(t int) uint64 { return uint64(t/slotsPerShard) + 1 }
 
-// pred describes a delete predicate: for measurement, host, region: 0 = no term, 1 = equals, 2 = not equals.
-type pred struct {
-	M, MOp int
-	H, HOp int
-	R, ROp int
-}
-
-func (p pred) text() string {
-	var terms []string
-	op := func(o int) string {
-		if o == 2 {
-			return "!="
-		}
-		return "="
-	}
-	if p.MOp != 0 {
-		terms = append(terms, fmt.Sprintf(`_measurement%s"%s"`, op(p.MOp), stor.MeasName(p.M)))
-	}
-	if p.HOp != 0 {
-		terms = append(terms, fmt.Sprintf(`host%s"%s"`, op(p.HOp), stor.Hosts[p.H]))
-	}
-	if p.ROp != 0 {
-		terms = append(terms, fmt.Sprintf(`region%s"%s"`, op(p.ROp), stor.Regions[p.R]))
-	}
-	return strings.Join(terms, " AND ")
-}
-
-func (p pred) matches(s int) bool {
-	t := func(o int, eq bool) bool {
-		switch o {
-		case 1:
-			return eq
-		case 2:
-			return !eq
-		}
-		return true
-	}
-	return t(p.MOp, s/stor.NTagSets == p.M) && t(p.HOp, stor.SeriesHost(s) == stor.Hosts[p.H]) && t(p.ROp, stor.SeriesRegion(s) == stor.Regions[p.R])
-}
-
 type op struct {
 	C   int    `json:"c"`
 	K   string `json:"k"`
@@ -87,7 +52,19 @@ type op struct {
 	Max int    `json:"max,omitempty"`
 	A   bool   `json:"a,omitempty"`
 	N   int    `json:"n,omitempty"`
-	P   *pred  `json:"p,omitempty"`
+	P   *pred  `json:"p,omitempty"`  // legacy flat conjunction (earlier replay files)
+	PT  *pnode `json:"pt,omitempty"` // delete predicate tree; neither P nor PT = no predicate (everything in range)
+	MQ  *metaq `json:"mq,omitempty"` // metadata query; a "meta" operation without one runs the standard battery
+}
+
+func (p *op) tree() *pnode {
+	if p.PT != nil {
+		return p.PT
+	}
+	if p.P != nil {
+		return p.P.tree()
+	}
+	return nil
 }
 
 type world struct {
@@ -100,7 +77,8 @@ type world struct {
 	writing  map[string][2]int64  // client -> [min ts, max ts] of the write in flight
 	deleting map[int][2]int64     // delete serial -> [min, max] of deletes in flight
 	delSeq   int
-	everWritten map[int]bool
+	active   int      // client goroutines still running
+	queries  []*metaq // the distinct metadata queries of the program (run again at every quiescent point)
 }
 
 func gen(r *hx.Run) []json.RawMessage {
@@ -110,6 +88,7 @@ func gen(r *hx.Run) []json.RawMessage {
 	useSeries := 2 + o.Choose(6, "nseries")
 	useFields := 1 + o.Choose(3, "nfields")
 	var prog []json.RawMessage
+	var pool []metaq
 	for i := 0; i < nops; i++ {
 		var p op
 		p.C = o.Choose(clients, "client")
@@ -138,8 +117,9 @@ func gen(r *hx.Run) []json.RawMessage {
 			p.Min, p.Max, p.A = a, b, !o.Bool(1, 2, "desc")
 		case 2:
 			p.K = "d"
-			pp := pred{M: o.Choose(stor.NMeas, "m"), MOp: o.Choose(3, "mop"), H: o.Choose(2, "h"), HOp: o.Choose(3, "hop"), R: o.Choose(2, "r"), ROp: o.Choose(3, "rop")}
-			p.P = &pp
+			if !o.Bool(1, 10, "nopred") {
+				p.PT = genPred(o, 1)
+			}
 			a, b := o.Choose(stor.NSlots, "a"), o.Choose(stor.NSlots, "b")
 			if o.Bool(1, 3, "full") {
 				a, b = -1, -1
@@ -158,6 +138,7 @@ func gen(r *hx.Run) []json.RawMessage {
 			p.N = []int{1, 50, 600, 1100, 2500, 11000, 31000}[o.Choose(7, "ms")]
 		case 6:
 			p.K = "meta"
+			p.MQ = genMeta(o, &pool)
 		}
 		b, _ := json.Marshal(p)
 		prog = append(prog, b)
@@ -211,12 +192,11 @@ func (w *world) doOp(p op) {
 			if c.ts > maxTS {
 				maxTS = c.ts
 			}
-			w.everWritten[c.s] = true
 		}
 		w.writing[who] = [2]int64{minTS, maxTS}
 		simrt.MuUnlock(&w.mu)
 		for _, k := range order {
-			pt, err := models.NewPoint(stor.MeasName(k.s/stor.NTagSets), stor.SeriesTags(k.s), fields[k], time.Unix(0, stor.SlotTS(k.t)))
+			pt, err := models.NewPoint(stor.SeriesMeas(k.s), stor.SeriesTags(k.s), fields[k], time.Unix(0, stor.SlotTS(k.t)))
 			if err != nil {
 				r.Violate("machinery", "newpoint", "%v", err)
 				return
@@ -261,20 +241,25 @@ func (w *world) doOp(p op) {
 		if p.Min < 0 {
 			min, max = math.MinInt64, math.MaxInt64
 		}
-		text := p.P.text()
+		pt := p.tree()
+		text := pt.text()
 		var pr influxdb.Predicate
-		if text != "" {
-			node, err := predicate.Parse(text)
+		if pt != nil {
+			if !pt.valid(0) {
+				return // not a predicate this harness can judge (hand-edited file)
+			}
+			compiled, err := tsm1.NewProtobufPredicate(&datatypes.Predicate{Root: pt.proto()})
 			if err != nil {
-				r.Violate("machinery", "predicate-parse", "predicate %q does not parse: %v", text, err)
+				r.Violate("C16:predicate-rejected", "predicate-compile", "predicate %s does not compile: %v", text, err)
 				return
 			}
-			pp, err := predicate.New(node)
-			if err != nil {
-				r.Violate("machinery", "predicate-new", "predicate %q: %v", text, err)
-				return
+			pr = compiled
+			if cl, ok := compiled.Clone().(tsm1.Predicate); ok {
+				w.checkPredicate(pt, cl, who)
+				if len(r.Viol) > 0 {
+					return
+				}
 			}
-			pr = pp
 		}
 		simrt.MuLock(&w.mu, 0)
 		w.delSeq++
@@ -282,30 +267,35 @@ func (w *world) doOp(p op) {
 		w.deleting[serial] = [2]int64{min, max}
 		inv := w.stamp()
 		var evs []*model.DEv
+		open := map[*model.DEv]bool{}
 		for s := 0; s < stor.NSeries; s++ {
-			if p.P.matches(s) {
-				evs = append(evs, w.h.Delete(s, min, max, inv))
+			// a series for which the verdict depends on the open corner (see pnode.eval) may or may not be deleted
+			if lo, definite := pt.verdict(s); lo || !definite {
+				e := w.h.Delete(s, min, max, inv)
+				evs = append(evs, e)
+				if !definite {
+					open[e], e.Failed = true, true
+					r.Probe("probe_delete_open_corner")
+				}
 			}
 		}
 		simrt.MuUnlock(&w.mu)
-		var err error
-		if pr != nil {
-			err = w.st.DeleteSeriesWithPredicate(ctx, "db0", min, max, pr, nil)
-		} else {
-			err = w.st.DeleteSeriesWithPredicate(ctx, "db0", min, max, nil, nil)
-		}
+		err := w.st.DeleteSeriesWithPredicate(ctx, "db0", min, max, pr, nil)
 		ret := w.stamp()
 		simrt.MuLock(&w.mu, 0)
 		delete(w.deleting, serial)
 		for _, e := range evs {
 			e.Ret = ret
-			e.Failed = err != nil
+			e.Failed = err != nil || open[e]
 		}
 		simrt.MuUnlock(&w.mu)
 		if err != nil {
 			r.Violate("C17:delete-error", "delete", "DeleteSeriesWithPredicate(%q) failed with no fault injected: %v", text, err)
 		}
 		r.Probe("deletes")
+		if pt != nil && strings.Contains(text, " OR ") {
+			r.Probe("probe_delete_with_or")
+		}
 		r.Logf("%s delete where %q [%d..%d] matches %d series [%d,%d] err=%v", who, text, min, max, len(evs), inv, ret, err)
 	case "r":
 		min, max := rangeOf(p.Min, p.Max)
@@ -325,7 +315,18 @@ func (w *world) doOp(p op) {
 	case "sleep":
 		simrt.Sleep(time.Duration(p.N)*time.Millisecond, 0)
 	case "meta":
-		// only meaningful without concurrent writers/deleters: checked when this client is alone
+		// only meaningful without concurrent writers/deleters: judged when this client is alone
+		simrt.MuLock(&w.mu, 0)
+		alone := w.active <= 1
+		simrt.MuUnlock(&w.mu)
+		if !alone {
+			break
+		}
+		if p.MQ == nil {
+			w.metadata(who)
+		} else {
+			w.runQuery(p.MQ, who)
+		}
 	}
 	if r.Sim != nil {
 		r.Sim.Progress.Add(1)
@@ -359,10 +360,46 @@ func (w *world) read(s, f int, min, max int64, asc bool, who string) bool {
 	class, detail := model.View{H: w.h, RInv: inv, RRet: ret, AsOf: model.Inf}.CheckRead(s, f, min, max, asc, got)
 	simrt.MuUnlock(&w.mu)
 	if class != "" {
-		r.Violate("C17:"+class, class, "%s read series %d (%s %v) field %s [%d..%d] asc=%v at [%d,%d] returned %d points: %s", who, s, stor.MeasName(s/stor.NTagSets), stor.SeriesTags(s), stor.FieldName(f), min, max, asc, inv, ret, len(got), detail)
+		sig := class
+		if class == "stale" || class == "order" {
+			sig += w.cycleSuffix(s, f, min, max, asc, class, detail)
+		}
+		r.Violate("C17:"+class, sig, "%s read series %d (%q %v) field %s [%d..%d] asc=%v at [%d,%d] returned %d points: %s", who, s, stor.SeriesMeas(s), stor.SeriesTags(s), stor.FieldName(f), min, max, asc, inv, ret, len(got), detail)
 		return false
 	}
 	return true
+}
+
+// cycleSuffix identifies known finding C06-F1: in the FileStore of the shard the offending point belongs to, the
+// cursor's own sort of the key's block locations puts an older file's block behind an overlapping newer one.
+func (w *world) cycleSuffix(s, f int, min, max int64, asc bool, class, detail string) string {
+	var t1, t2 int64
+	var sh int
+	switch class {
+	case "stale":
+		if n, _ := fmt.Sscanf(detail, "ts=%d ", &t1); n != 1 {
+			return ""
+		}
+		sh = shardOfTS(t1)
+	case "order":
+		i := strings.Index(detail, ": ")
+		if i < 0 {
+			return ""
+		}
+		if n, _ := fmt.Sscanf(detail[i+2:], "%d then %d", &t1, &t2); n != 2 || shardOfTS(t1) != shardOfTS(t2) {
+			return ""
+		}
+		sh = shardOfTS(t1)
+	}
+	shard := w.st.Shard(uint64(sh))
+	if sh == 0 || shard == nil {
+		return ""
+	}
+	seek := min // the cursor of the shard seeks to the start of the range in read direction
+	if !asc {
+		seek = max
+	}
+	return stor.CycleTag(stor.ShardFiles(shard), stor.FieldKey(s, f), seek, asc)
 }
 
 func (w *world) readAll(who string) {
@@ -383,147 +420,35 @@ func (w *world) readAll(who string) {
 	}
 }
 
-// metadata compares the Store's metadata queries with the model at a quiescent point.
-// live ⇒ listed is exact; listed ⇒ the series was written and not since wiped by a completed
+// metadata runs the standard battery and then every metadata query of the program against the model at a
+// quiescent point. live => listed is exact; listed => the series was written and not since wiped by a completed
 // full-range delete (a series whose points were removed piecewise may stay listed until compaction).
 func (w *world) metadata(who string) {
-	r := w.r
-	ctx := context.Background()
-	v := model.View{H: w.h, RInv: model.Inf - 1, RRet: model.Inf - 1, AsOf: model.Inf}
-	live := map[int]bool{}
-	maybe := map[int]bool{}
-	for s := 0; s < stor.NSeries; s++ {
-		for f := 0; f < stor.NFields; f++ {
-			if v.LiveCount(s, f) > 0 {
-				live[s] = true
-			}
-		}
-		if w.everWritten[s] && !w.wiped(s) {
-			maybe[s] = true
+	// the unfiltered open-authorizer paths of TagValues / TagKeys (known finding C42-F1 and its TagKeys twin) go
+	// last, so that a run that ends on them has judged every other query first
+	fast := func(q *metaq) bool { return q.Q != "names" && q.F == nil && !q.Auth }
+	var first, last []*metaq
+	for _, q := range w.queries {
+		if fast(q) {
+			last = append(last, q)
+		} else {
+			first = append(first, q)
 		}
 	}
-	names, err := w.st.MeasurementNames(ctx, nil, "db0", nil)
-	if err != nil {
-		r.Violate("C42:metadata-error", "measurement-names", "MeasurementNames: %v", err)
-		return
-	}
-	var got []string
-	for _, n := range names {
-		got = append(got, string(n))
-	}
-	if !sort.StringsAreSorted(got) {
-		r.Violate("C42:unsorted", "measurement-names", "%s: MeasurementNames not sorted: %v", who, got)
-		return
-	}
-	for i := 1; i < len(got); i++ {
-		if got[i] == got[i-1] {
-			r.Violate("C42:duplicate", "measurement-names", "%s: MeasurementNames lists %s twice", who, got[i])
+	first = append(first, &metaq{Q: "names"})
+	last = append(last, &metaq{Q: "values", TK: []string{"rack"}}, &metaq{Q: "keys"}, &metaq{Q: "values", TK: []string{"host", "region"}})
+	for _, q := range append(first, last...) {
+		if !w.runQuery(q, who) || w.r.Aborted {
 			return
 		}
 	}
-	listed := map[string]bool{}
-	for _, g := range got {
-		listed[g] = true
-	}
-	for m := 0; m < stor.NMeas; m++ {
-		hasLive, hasMaybe := false, false
-		for s := m * stor.NTagSets; s < (m+1)*stor.NTagSets; s++ {
-			hasLive = hasLive || live[s]
-			hasMaybe = hasMaybe || maybe[s]
-		}
-		if hasLive && !listed[stor.MeasName(m)] {
-			r.Violate("C42:missing-name", "measurement-missing", "%s: measurement %s has live data but MeasurementNames = %v", who, stor.MeasName(m), got)
-			return
-		}
-		if listed[stor.MeasName(m)] && !hasMaybe {
-			r.Violate("C42:dead-name-listed", "measurement-listed-after-wipe", "%s: measurement %s is listed although every series of it was wiped by a completed full-range delete (or never written)", who, stor.MeasName(m))
-			return
-		}
-	}
-	// tag values per measurement
-	tvs, err := w.st.TagValues(ctx, nil, []uint64{1, 2, 3}, influxql.MustParseExpr("_tagKey = 'host' OR _tagKey = 'region'"))
-	if err != nil {
-		r.Violate("C42:metadata-error", "tag-values", "TagValues: %v", err)
-		return
-	}
-	type kv struct{ m, k, v string }
-	have := map[kv]bool{}
-	prevM := ""
-	for _, tv := range tvs {
-		if tv.Measurement <= prevM && prevM != "" {
-			r.Violate("C42:unsorted", "tag-values-measurements", "%s: TagValues measurements not strictly ascending: %q after %q", who, tv.Measurement, prevM)
-			return
-		}
-		prevM = tv.Measurement
-		for i, x := range tv.Values {
-			if i > 0 && (tv.Values[i-1].Key > x.Key || tv.Values[i-1].Key == x.Key && tv.Values[i-1].Value >= x.Value) {
-				r.Violate("C42:unsorted", "tag-values", "%s: TagValues of %s not sorted/unique at %v", who, tv.Measurement, x)
-				return
-			}
-			have[kv{tv.Measurement, x.Key, x.Value}] = true
-		}
-	}
-	wantLive, wantMaybe := map[kv]bool{}, map[kv]bool{}
-	for s := 0; s < stor.NSeries; s++ {
-		m := stor.MeasName(s / stor.NTagSets)
-		for _, e := range []kv{{m, "host", stor.SeriesHost(s)}, {m, "region", stor.SeriesRegion(s)}} {
-			if live[s] {
-				wantLive[e] = true
-			}
-			if maybe[s] {
-				wantMaybe[e] = true
-			}
-		}
-	}
-	var wl []kv
-	for e := range wantLive {
-		wl = append(wl, e)
-	}
-	sort.Slice(wl, func(i, j int) bool { return fmt.Sprint(wl[i]) < fmt.Sprint(wl[j]) })
-	for _, e := range wl {
-		if !have[e] {
-			r.Violate("C42:missing-name", "tag-value-missing", "%s: %s %s=%q belongs to a series with live data but TagValues does not list it", who, e.m, e.k, e.v)
-			return
-		}
-	}
-	var hl []kv
-	for e := range have {
-		hl = append(hl, e)
-	}
-	sort.Slice(hl, func(i, j int) bool { return fmt.Sprint(hl[i]) < fmt.Sprint(hl[j]) })
-	for _, e := range hl {
-		if !wantMaybe[e] {
-			r.Violate("C42:dead-name-listed", "tag-value-listed-after-wipe", "%s: TagValues lists %s %s=%q although every series carrying it was wiped by a completed full-range delete (or never written)", who, e.m, e.k, e.v)
-			return
-		}
-	}
-	r.Probe("probe_metadata_checks")
-}
-
-// wiped: a completed full-range delete covered the series after its last write began.
-func (w *world) wiped(s int) bool {
-	var lastWriteInv uint64
-	for f := 0; f < stor.NFields; f++ {
-		for _, ws := range w.h.Cells[model.SF{Series: s, Field: f}] {
-			for _, e := range ws {
-				if e.Inv > lastWriteInv {
-					lastWriteInv = e.Inv
-				}
-			}
-		}
-	}
-	for _, d := range w.h.Deletes[s] {
-		if d.Min == math.MinInt64 && d.Max == math.MaxInt64 && !d.Failed && d.Ret != model.Inf && d.Inv > lastWriteInv {
-			return true
-		}
-	}
-	return false
 }
 
 func exec(r *hx.Run, prog []json.RawMessage) {
-	w := &world{r: r, h: model.NewHistory(), writing: map[string][2]int64{}, deleting: map[int][2]int64{}, everWritten: map[int]bool{}}
+	w := &world{r: r, h: model.NewHistory(), writing: map[string][2]int64{}, deleting: map[int][2]int64{}}
 	fs := r.NewFS("db")
 	clients := map[int][]op{}
+	seenQ := map[string]bool{}
 	var order []int
 	for _, raw := range prog {
 		var p op
@@ -535,6 +460,17 @@ func exec(r *hx.Run, prog []json.RawMessage) {
 		}
 		clients[p.C] = append(clients[p.C], p)
 		r.MixSig(p.K, uint64(len(p.S))<<8|uint64(p.C))
+		if p.K == "d" {
+			r.MixSig("pred", strHash(p.tree().text()))
+		}
+		if p.K == "meta" && p.MQ != nil {
+			txt := p.MQ.text()
+			r.MixSig("mq", strHash(txt))
+			if !seenQ[txt] && len(w.queries) < 16 {
+				seenQ[txt] = true
+				w.queries = append(w.queries, p.MQ)
+			}
+		}
 	}
 	sort.Ints(order)
 	// liveness clause of C17: a write that does not overlap any delete in flight never parks on a guard
@@ -573,6 +509,7 @@ func exec(r *hx.Run, prog []json.RawMessage) {
 			}
 		}
 		var wg sync.WaitGroup
+		w.active = len(order)
 		for _, c := range order {
 			ops := clients[c]
 			wg.Add(1)
@@ -622,6 +559,14 @@ func exec(r *hx.Run, prog []json.RawMessage) {
 		}
 	})
 	r.NonTrivial = len(prog) >= 4 && r.Sim != nil && r.Sim.Stats.Switches > 0
+}
+
+func strHash(s string) uint64 {
+	h := uint64(14695981039346656037)
+	for i := 0; i < len(s); i++ {
+		h = (h ^ uint64(s[i])) * 1099511628211
+	}
+	return h
 }
 
 func TestWorker(t *testing.T) {
